@@ -368,6 +368,68 @@ theorem C03_server_not_authorized (name : String) (mech : Mech) (hist : List Byt
       r.sent = [.failure "not-authorized"] := by
   simp [sstep, hd, hk, sfail]
 
+/-- **Write failures.**  On a connection that stops accepting writes after any number of
+SASL elements, an authenticated result is exactly the result of the run on a healthy
+connection: in particular `<success/>` did reach the wire (it is the last element of `sent`,
+`C03_server_sound`), and a failed write never leaves the `Authn` bit set. -/
+theorem C03_server_write_failure (cfg : List (String × Mech)) (peer : List SEv) :
+    ∀ (cur : Option SCur) (budget : Nat), (serverLoopW cfg cur budget peer).authn = true →
+      serverLoopW cfg cur budget peer = serverLoop cfg cur peer := by
+  induction peer with
+  | nil => intro cur b h; simp [serverLoopW] at h
+  | cons ev rest ih =>
+    intro cur b h
+    unfold serverLoopW at h ⊢
+    unfold serverLoop
+    cases hev : sevent cfg cur ev with
+    | stop r =>
+      simp only [hev] at h ⊢
+      by_cases hb : r.sent.length ≤ b
+      · simp [hb]
+      · simp [hb] at h
+    | cont c resp perms =>
+      simp only [hev] at h ⊢
+      cases b with
+      | zero => simp at h
+      | succ b =>
+        simp only [SRes.after_authn] at h ⊢
+        rw [ih (some c) b h]
+
+theorem serverLoop_authn_err (cfg : List (String × Mech)) (peer : List SEv) : ∀ (cur : Option SCur),
+    (serverLoop cfg cur peer).authn = true → (serverLoop cfg cur peer).err = .none := by
+  induction peer with
+  | nil => intro cur ha; simp [serverLoop] at ha
+  | cons ev rest ih =>
+    intro cur ha
+    unfold serverLoop at ha ⊢
+    cases hev : sevent cfg cur ev with
+    | stop r =>
+      simp only [hev] at ha ⊢
+      obtain ⟨hstop, _⟩ := sevent_src cfg cur ev
+      obtain ⟨name, m, hist, p, _, hss⟩ := hstop r hev ha
+      obtain ⟨d, _, _, hr⟩ := sstep_stop hss ha
+      subst hr; rfl
+    | cont c resp perms =>
+      simp only [hev, SRes.after_authn, SRes.after_err] at ha ⊢
+      exact ih (some c) ha
+
+theorem C03_server_write_failure_closed (cfg : List (String × Mech)) (peer : List SEv)
+    (cur : Option SCur) (budget : Nat) (h : (serverLoopW cfg cur budget peer).err = .writeErr) :
+    (serverLoopW cfg cur budget peer).authn = false := by
+  cases ha : (serverLoopW cfg cur budget peer).authn with
+  | false => rfl
+  | true =>
+    have e := C03_server_write_failure cfg peer cur budget ha
+    rw [e] at h ha
+    rw [serverLoop_authn_err cfg peer cur ha] at h
+    cases h
+
+-- non-vacuity: the connection fails when <success/> is written
+example :
+    let mech : Mech := fun _ => { kind := .done }
+    let r := serverLoopW [("M", mech)] none 0 [.auth "M" .empty]
+    r.authn = false ∧ r.err = .writeErr ∧ r.sent = [] := by decide
+
 /-- the feature dispatch in front of `negotiateServer` adds no way to authenticate -/
 theorem C03_server_session (cfg : List (String × Mech)) (peer : List SEv)
     (h : (serverSession cfg peer).authn = true) : serverSession cfg peer = serverNeg cfg peer := by
